@@ -86,6 +86,11 @@ def replay(item):
         r2 = run_async(vt.execute(content=r["canonical"], schema=name, fix=fix))
         log2 = [x for x in r2.get("repairs", []) if isinstance(x, dict) and x.get("tier") is not None]
         entry("octave_validate", fix, r["canonical"], log, r2["canonical"], log2)
+    # fix on together with the output options: they shape the answer, never what was repaired or what the log says
+    for flags in ({"compact": True}, {"grammar_hint": True}, {"debug_grammar": True}, {"compact": True, "grammar_hint": True}):
+        r = run_async(vt.execute(content=text, schema=name, fix=True, **flags))
+        log = [x for x in r.get("repairs", []) if isinstance(x, dict) and x.get("tier") is not None]
+        entry("octave_validate+" + "+".join(sorted(flags)), True, r["canonical"], log)
     # fix off under every profile: no profile implies repair
     for prof in ("STRICT", "LENIENT", "ULTRA"):
         r = run_async(vt.execute(content=text, schema=name, fix=False, profile=prof))
